@@ -30,7 +30,7 @@ REQUIRED_COUNTERS = {"quick": {"columns:do": 1000, "columns:shift": 1000, "colum
                      "thorough": {"columns:do": 10000, "columns:shift": 10000, "columns:noise-iv": 10000, "columns:plain": 30000,
                                   "columns:do-overrides-other": 3000, "assign:column-returning": 5000, "assign:scalar-returning": 2000,
                                   "adjacency:cancelling": 3000, "n:0": 1000}}
-N = {"quick": 6000, "thorough": 90000}
+N = {"quick": 6000, "thorough": 900000}
 NS = (0, 1, 2, 5, 1000, 5, 2, 5)
 
 
